@@ -35,7 +35,8 @@ META = {
                    "ancestor chains are walked completely, the upper-limit comparison is strict, and no path answers "
                    "'allowed' merely because the slot lies beyond the horizon known at parse time."
                    " Also: the period index is typed as a difference of calendar dates (returns enumerated per period value by three-valued evaluation of the branch tests) and must depend on the interval start; Limit.copy passes every constructor field and aliases no counter list; the booking guard facts of C03."
-                   " Round 3: duration-unit cross-check (minutes are not months), process-state rule.",
+                   " Round 3: duration-unit cross-check (minutes are not months), process-state rule."
+                   " Round 4: limit increments on every booking path, hours to slots never rounded up.",
     "assumptions": [],
 }
 
